@@ -216,3 +216,242 @@ def replay_solve(ctx, path):
 REGISTRY = {p: {"run": f, "replay": replay_solve} for p, f in
             [("C01", run_c01), ("C02", run_c02), ("C04", run_c04), ("C05", run_c05), ("C06", run_c06),
              ("C07", run_c07), ("C08", run_c08)]}
+
+
+# ---------------------------------------------------------------------------------------------
+# C09: limits placed relative to the solved values (far below / just below / equal / just above /
+# far above, on the min and the max side, either sign convention), then solved again
+def _quantities(row, ta, has_t):
+    vi, vo = row["Vin (V)"], row["Vout (V)"]
+    q = {"vi": vi, "vo": vo, "vd": abs(vi) - abs(vo), "ii": row["Iin (A)"], "io": row["Iout (A)"],
+         "pi": row["Power (W)"], "pl": row["Loss (W)"]}
+    q["po"] = q["pi"] - q["pl"]
+    if has_t and row["Temp. rise (°C)"] != "":
+        q["tr"], q["tp"] = row["Temp. rise (°C)"], row["Peak temp. (°C)"]
+    else:
+        q["tr"], q["tp"] = 0.0, ta
+    return q
+
+
+def _place(rng, x, signed):
+    """a bound in a chosen relation to the value x (magnitude unless signed)"""
+    import math
+    v = x if signed else abs(x)
+    rel = rng.choice(["far_below", "just_below", "equal", "just_above", "far_above"])
+    if rel == "equal":
+        b = v
+    elif rel == "just_below":
+        b = math.nextafter(v, -math.inf)
+    elif rel == "just_above":
+        b = math.nextafter(v, math.inf)
+    elif rel == "far_below":
+        b = v - abs(v) * rng.uniform(0.05, 0.9) - rng.choice([0.0, 1e-9])
+    else:
+        b = v + abs(v) * rng.uniform(0.05, 5.0) + rng.choice([0.0, 1e-9])
+    if not signed and rng.random() < 0.2:
+        b = -b
+    return float(b), rel
+
+
+def c09_post(s, cases, rng):
+    import copy
+    from decwire import cell
+    base = cases[-1]
+    if base["outcome"] != "ok":
+        return
+    st = base["st"]
+    kw = dict(base.get("kw", {}))
+    ta = kw.get("ta", 25.0)
+    try:
+        s1 = rebuild(st)
+        df = s1.solve(**kw)
+    except Exception:
+        return
+    has_t = "Temp. rise (°C)" in df.columns
+    phs = [p["name"] for p in st["sysph"]] or [""]
+    ph = rng.choice(phs)
+    st2 = copy.deepcopy(st)
+    placed = []
+    comps = [c for c in st2["comps"]]
+    rng.shuffle(comps)
+    for c in comps[: rng.randint(1, 4)]:
+        rows = df[(df["Component"] == c["name"]) & ((df["Phase"] == ph) if "Phase" in df.columns else True)]
+        if len(rows) != 1:
+            continue
+        q = _quantities(rows.iloc[0].to_dict(), ta, has_t)
+        keys = gen.LIMKEYS.get(c["cls"], gen.ALLKEYS)
+        lim = {k: v for k, v in c["pay"]["limits"]}
+        for k in rng.sample(keys, rng.randint(1, min(3, len(keys)))):
+            side = rng.choice(["max", "min", "both"])
+            lo, hi = (-1.0e6, 1.0e6) if k == "tp" else (0.0, 1.0e6)
+            rels = []
+            if side in ("max", "both"):
+                hi, r = _place(rng, q[k], k == "tp")
+                rels.append("max:" + r)
+            if side in ("min", "both"):
+                lo, r = _place(rng, q[k], k == "tp")
+                rels.append("min:" + r)
+            lim[k] = [cell(lo), cell(hi)]
+            placed.append((c["name"], k, rels))
+        c["pay"]["limits"] = [[k, v] for k, v in lim.items()]
+    try:
+        s2 = rebuild(st2)
+    except Exception:
+        return
+    c2 = drv_solve.solve_case(s2, len(cases), **kw)
+    c2["placed"] = placed
+    cases.append(c2)
+
+
+def run_c09(ctx):
+    return _run(ctx, "C09", 130, 2500,
+                "random limit dictionaries (any subset of keys incl. non-applicable ones, either sign convention) and, in a second pass, "
+                "bounds placed far below / just below (1 ulp) / equal / just above / far above the solved value on the min and max side; "
+                "the Warnings cell of every row must name exactly the exceeded applicable limits, roll-ups follow",
+                gen_kw=dict(neg=0.2, zero_src=0.1, tables=0.1, limits=gen.random_limits),
+                case_kw=lambda rng, s: dict(ta=rng.choice([25.0, -40.0, 85.0]), energy=False, rail_rep=False),
+                post=c09_post)
+
+
+REGISTRY["C09"] = {"run": run_c09, "replay": replay_solve}
+
+
+# ---------------------------------------------------------------------------------------------
+# C03: the solver loop
+import re as _re
+import solvertap
+import designed as _designed
+from decwire import cell as _cell
+
+
+def _mc_solver(ctx, res):
+    m = tlc.run_mc("Solver.tla", "MCSolver.cfg", ctx.work, workers=4)
+    m["name"] = "Solver loop, maxiter 0..6"
+    res.mc.append(m)
+    if not m["ok"]:
+        if _re.search(r"Invariant \w+ is violated", m["out"]):
+            res.mc_failures.append(m["out"][m["out"].find("Error:"):][:4000])
+        else:
+            raise tlc.TLCError(m["out"][-2000:])
+
+
+def _f19_system():
+    from sysloss.system import System
+    from sysloss.components import Source, RLoss, Converter, ILoad
+    s = System("F19", Source("bat", vo=13.0))
+    s.add_comp("bat", comp=RLoss("wire", rs=146708.0))
+    s.add_comp("wire", comp=Converter("boost", vo=41.76, eff=0.678, iq=3.55e-4))
+    s.add_comp("boost", comp=ILoad("sensor", ii=0.5e-6))
+    vin = 13.0
+    for _ in range(200):
+        iin = 41.76 * 0.5e-6 / (vin * 0.678)
+        vin = 13.0 - 146708.0 * iin
+    d = {"bat": dict(vin=13.0, vout=13.0, iin=iin, iout=iin), "wire": dict(vin=13.0, vout=vin, iin=iin, iout=iin),
+         "boost": dict(vin=vin, vout=41.76, iin=iin, iout=0.5e-6), "sensor": dict(vin=41.76, vout=0.0, iin=0.5e-6, iout=0.0)}
+    return s, d
+
+
+def run_c03(ctx):
+    res = Result()
+    rng = ctx.rng
+    _mc_solver(ctx, res)
+    q = ctx.quick
+    n_std, n_des, n_over = (50, 70, 50) if q else (800, 1500, 800)
+    behs = build_behaviours(ctx, n_std + n_des * 2 + n_over + 20)
+    rng.shuffle(behs)
+    tap = solvertap.SolverTap()
+    tap.install()
+    cases, runs = [], []
+
+    def settings(n_iter):
+        out = [dict(), dict(vtol=1e-3, itol=1e-3), dict(vtol=1e-9, itol=1e-9), dict(vtol=1e-12, itol=1e-4)]
+        if n_iter is not None:
+            out += [dict(maxiter=m) for m in {0, 1, max(n_iter - 2, 0), max(n_iter - 1, 0), n_iter, n_iter + 1}]
+        return out
+
+    def record(s, kw, tag):
+        c = drv_solve.solve_case(s, len(cases), **kw)
+        c["tag"] = tag
+        got = tap.take()
+        c["sweeps"] = len(got[-1]["sweeps"]) if got else 0
+        for run in got:
+            run["id"] = len(runs)
+            run["case"] = c["id"]
+            run["has_table"] = c["outcome"] == "ok"
+            run["tv"], run["ti"] = [], []
+            if c["outcome"] == "ok":
+                rows = {r["comp"]: r for r in c["table"]["rows"] if r["phase"] == run["phase"] and r["type"]}
+                run["tv"] = [rows[n]["vout"] for n in run["names"]]
+                run["ti"] = [rows[n]["iin"] for n in run["names"]]
+            runs.append(run)
+        cases.append(c)
+        return c
+
+    try:
+        it = iter(behs)
+        # (a)+(b): ordinary systems under many tolerance / maxiter settings
+        for _ in range(n_std):
+            st = next(it)
+            s = drv_solve.build_system(st, gen.Gen(rng, neg=0.2, tables=0.2), rng)
+            c0 = record(s, {}, "std")
+            n_iter = c0["sweeps"] if c0["outcome"] == "ok" else None
+            for kw in settings(n_iter)[1:]:
+                record(s, kw, "std")
+        # (c): designed steady states with modest drops must be found
+        nd = 0
+        for st in it:
+            sysst = st[-1]["sys"]
+            if any(c["cls"] == "PMux" and len(sysst["par"][n]) > 1 for n, c in sysst["comps"].items()):
+                continue
+            descs, dg = _designed.design(sysst, rng)
+            s = _designed.build_designed(descs)
+            c = record(s, {}, "designed")
+            c["has_design"] = True
+            c["design"] = [{"name": n, "vin": _cell(d["vin"]), "vout": _cell(d["vout"]), "iin": _cell(d["iin"]),
+                            "iout": _cell(d["iout"])} for n, d in dg.items()]
+            nd += 1
+            if nd >= n_des:
+                break
+        # committed reproducer of finding F19 (always executed)
+        s19, d19 = _f19_system()
+        c = record(s19, {}, "designed")
+        c["has_design"] = True
+        c["design"] = [{"name": n, "vin": _cell(d["vin"]), "vout": _cell(d["vout"]), "iin": _cell(d["iin"]),
+                        "iout": _cell(d["iout"])} for n, d in d19.items()]
+        # (d): overloaded systems must raise or return a physical converged state
+        for _ in range(n_over):
+            st = next(it, None)
+            if st is None:
+                break
+            s = drv_solve.build_system(st, gen.Gen(rng, neg=0.2, tables=0.1, overload=0.35), rng)
+            record(s, {}, "overload")
+    finally:
+        tap.uninstall()
+    validate_cases(ctx, res, cases)
+    # sweep-level traces
+    for r in runs:
+        r["id"] = 10 ** 6 + r["id"]
+    res.add_traces([{"tid": r["id"], "kind": "solve", "events": [dict(r, st=cases[r["case"]]["st"])]} for r in runs])
+    verd, stat, states = tlc.validate("TraceSolver.tla", "TraceSolver.cfg", [runs[i::tlc.NCPU] for i in range(tlc.NCPU) if runs[i::tlc.NCPU]], ctx.work)
+    res.verd += verd
+    for k, v in stat.items():
+        res.stat[k] = res.stat.get(k, 0) + v
+    res.extra["trace_validation_states"] += states
+    tags = {}
+    for c in cases:
+        k = "%s:%s%s" % (c["tag"], c["outcome"], (":" + c["exc"]) if c["exc"] else "")
+        tags[k] = tags.get(k, 0) + 1
+    res.extra["cases_by_kind"] = tags
+    res.extra["solver_runs"] = len(runs)
+    res.extra["sweeps"] = sum(len(r["sweeps"]) for r in runs)
+    res.extra["distinct_nontrivial"] = len({struct_digest(c["st"]) for c in cases})
+    res.samples = [{"kind": c["tag"], "outcome": c["outcome"], "exc": c["exc"], "sweeps": c["sweeps"], "kw": c.get("kw", {}),
+                    "components": [(x["name"], x["cls"]) for x in c["st"]["comps"]]} for c in cases[:2] + cases[-2:]]
+    res.assumptions = STD_ASSUME + ["the tap wraps System._solve/_fwd_prop/_back_prop; if they are renamed the sweep-level clauses are not evaluated (reduced coverage, no alarm)"]
+    return conclude("C03", ctx, res, rule=(
+        "(a) every run of the solver loop recorded sweep by sweep (tolerances 1e-3..1e-12, maxiter 0,1,N-2..N+1) must be a behaviour of Solver.tla under the exact "
+        "stopping rule; (b) every returned table is finite, reproduces every law within the requested tolerance and no passive element inverts/amplifies; "
+        "(c) designed steady states with drops <= 6 % per element must be found; (d) overloaded systems must raise RuntimeError/ValueError or return such a state"))
+
+
+REGISTRY["C03"] = {"run": run_c03, "replay": replay_solve}
